@@ -17,6 +17,8 @@ Record case := {
   c_opts : opts;
   c_exist : list string;                            (* objects that exist, each in the database of its home cluster *)
   c_logs : list (string * list (opts * answer));    (* backend id -> (request received, answer given), in order *)
+  c_lax : bool;                                     (* the backends honour context cancellation (wire stage: rpc.Conn over HTTP): once a cluster
+                                                       has failed, the calls to the others may be cut short — their logs are compared as prefixes *)
   c_upd : list (list string * bool);                (* UserBatchUpdate calls received by the local backend: (user uuids, answered without error) *)
   o_fate : N;                                       (* 0 = the call returned; 1 = it had not returned when the watchdog (20 s) expired; 2 = it panicked *)
   o_code : N;                                       (* 0 = nil error, otherwise the HTTP status of the error *)
@@ -80,10 +82,15 @@ Definition econf (c : case) : econfig := {| ec_cfg := c_cfg c; ec_login := c_log
 (* the local backend's answer to UserBatchUpdate, as recorded *)
 Definition upd_oracle (c : case) : bool := match c_upd c with (_, ok) :: _ => ok | [] => true end.
 (* the model always returns: a call that is stuck or panicked is never explained by it *)
+Fixpoint prefix_b {A} (e : A -> A -> bool) (a b : list A) : bool :=    (* a is a prefix of b *)
+  match a, b with [], _ => true | x :: a', y :: b' => e x y && prefix_b e a' b' | _ :: _, [] => false end.
 Definition model_b (c : case) : bool :=
   let eo := erun (econf c) (oracle c) (c_kind c) (c_opts c) in
+  let failed := negb (is_nil (e_errs (econf c) (upd_oracle c) eo)) in
   N.eqb (o_fate c) 0 &&
-  forallb (fun b => list_eqb opts_eqb (e_calls_to (econf c) (c_opts c) eo b) (map fst (log_of c b))) (backends c) &&
+  forallb (fun b => if c_lax c && failed
+                    then prefix_b (fun x y => opts_eqb y x) (map fst (log_of c b)) (e_calls_to (econf c) (c_opts c) eo b)
+                    else list_eqb opts_eqb (e_calls_to (econf c) (c_opts c) eo b) (map fst (log_of c b))) (backends c) &&
   list_eqb perm_b (e_updates (econf c) eo) (map fst (c_upd c)) &&
   match e_errs (econf c) (upd_oracle c) eo with
   | [] => N.eqb (o_code c) 0 && items_match (e_items (econf c) eo) (o_items c)
